@@ -220,6 +220,59 @@ where
     }
 }
 
+/// While the device is busy (its lock is held, as it is during handle_event on a worker), a
+/// notification through the adapter must wait and then be delivered - never be skipped. The
+/// harness holds the lock itself, starts the call on a helper thread, certifies that the helper is
+/// parked on the lock, releases, and expects exactly one recorded invocation.
+fn busy_device<A, G>(cfg: &Cfg, name: &str, a: &A, hold: &dyn Fn() -> G, log_len: &dyn Fn() -> usize)
+where
+    A: VhostUserBackend<Bitmap = (), Vring = VringRwLock> + Sync,
+{
+    let calls: Vec<(&'static str, Box<dyn Fn(&A) + Sync>)> = vec![
+        ("update_memory", Box::new(|a: &A| {
+            let _ = a.update_memory(GuestMemoryAtomic::new(GuestMemoryMmap::new()));
+        })),
+        ("set_config", Box::new(|a: &A| {
+            let _ = a.set_config(4, &[1, 2, 3]);
+        })),
+        ("acked_features", Box::new(|a: &A| a.acked_features(0x55))),
+        ("set_event_idx", Box::new(|a: &A| a.set_event_idx(true))),
+        ("reset_device", Box::new(|a: &A| a.reset_device())),
+    ];
+    for (method, call) in &calls {
+        let before = log_len();
+        let guard = hold();
+        let tid = std::sync::atomic::AtomicI32::new(0);
+        let mut returned_while_busy = false;
+        let mut parked = false;
+        std::thread::scope(|sc| {
+            let h = sc.spawn(|| {
+                tid.store(sys::gettid(), std::sync::atomic::Ordering::SeqCst);
+                call(a);
+            });
+            sys::wait_until(5000, || {
+                let t = tid.load(std::sync::atomic::Ordering::SeqCst);
+                parked = t > 0 && sys::parked_in(t, &[sys::SYS_FUTEX]);
+                returned_while_busy = h.is_finished();
+                parked || returned_while_busy
+            });
+            drop(guard);
+            let _ = h.join();
+        });
+        let recorded = log_len() - before;
+        report::eval(1);
+        report::count("adapter.busy_calls", 1);
+        report::distinct_str(&format!("busy:{name}:{method}"));
+        if returned_while_busy || recorded != 1 {
+            report::violation(
+                &format!("C03:adapter:{name}:{method}:{}", if recorded == 0 { "skipped-while-device-busy" } else if returned_while_busy { "returned-while-device-busy" } else { "wrong-invocation-count" }),
+                jo! {"adapter" => name, "method" => *method, "helper_parked_on_the_lock" => parked, "returned_while_lock_held" => returned_while_busy, "invocations_recorded" => recorded},
+                cfg.replay("adapters"),
+            );
+        }
+    }
+}
+
 pub fn run(cfg: &Cfg) {
     report::assume("the recording device implements VhostUserBackendMut; every adapter the library provides for it (Mutex, RwLock, and Arc around both) is driven through the VhostUserBackend trait");
     let mut rng = Rng::new(cfg.seed.wrapping_mul(0xc03d).wrapping_add(cfg.shard));
@@ -235,6 +288,12 @@ pub fn run(cfg: &Cfg) {
         drive(cfg, "Arc<Mutex>", &am, &|f| f(&mut am.lock().unwrap()), &mut rng);
         let ar = Arc::new(RwLock::new(RecMut::default()));
         drive(cfg, "Arc<RwLock>", &ar, &|f| f(&mut ar.write().unwrap()), &mut rng);
+        if round == 0 {
+            busy_device(cfg, "Mutex", &m, &|| m.lock().unwrap(), &|| m.lock().unwrap().log.len());
+            busy_device(cfg, "RwLock", &r, &|| r.write().unwrap(), &|| r.read().unwrap().log.len());
+            busy_device(cfg, "Arc<Mutex>", &am, &|| am.lock().unwrap(), &|| am.lock().unwrap().log.len());
+            busy_device(cfg, "Arc<RwLock>", &ar, &|| ar.write().unwrap(), &|| ar.read().unwrap().log.len());
+        }
     }
     let _ = dmn::sock_path;
     let _ = J::Null;
